@@ -98,6 +98,14 @@ def _aliased(gp):
         if k in seen and seen[k] != str(name):
             return True
         seen[k] = str(name)
+    # the choice atom of an annotated disjunction / probabilistic clause that carries the name of a user atom instead of its own
+    # choice(...) name: that atom (d0(2) :- f2(2), f2(2). with 0.6::f2(X) :- dom(X).) shares the node of the choice
+    try:
+        for _i, n, t in gp:
+            if t == "atom" and n.group is not None and not n.is_extra and n.name is not None and not str(n.name).startswith("choice("):
+                return True
+    except Exception:  # noqa
+        pass
     return False
 
 
@@ -160,7 +168,19 @@ def run_case(case):
         if "@?" not in fs and "c31" not in fs:
             return viol("bn:%s" % fs, "exporting the network raised KeyError %s\n%s" % (e, text), feat=feats, sample=text)
         tg = ""
-        if _aliased(gp) or _syntactic_alias(prog):
+        alias2 = False
+        try:
+            # the missing variable is a labelled atom whose node carries the name of ANOTHER atom (d0(2) :- f2(2), f2(2). collapses
+            # onto the node of f2(2)): two atoms share one node
+            missing0 = str(e).strip("'\"")
+            for name, key, _label in gp.get_names_with_label():
+                if str(name) == missing0 and key not in (None, 0):
+                    nn = getattr(gp.get_node(abs(key)), "name", None)
+                    if nn is not None and str(nn) != missing0:
+                        alias2 = True
+        except Exception:  # noqa
+            pass
+        if _aliased(gp) or _syntactic_alias(prog) or alias2:
             tg += "|aliased-node-names"
         if any(key is not None and key != 0 and key < 0 for _n, key, _l in gp.get_names_with_label()):
             tg += "|negated-labelled-node"
